@@ -9,7 +9,7 @@ import textwrap
 REPO = "/repo"
 
 
-def _f(args, ret, body, name="f"):
+def _f(args, ret, body, name="prog"):
     if isinstance(body, str):
         body = [body]
     return "def %s(%s) -> %s:\n" % (name, ", ".join(args), ret) + "".join("    %s\n" % b for b in body)
@@ -319,11 +319,20 @@ def u_reject():
     add(["a: %s" % Q2], Q2, ["pass", "return a"])
     add(["a: %s" % Q2], Q2, ["a += 1", "return a"])
     add(["a"], Q2, "return a")
-    P.append(("reject", "def f(a: Qint[2]):\n    return a\n"))
+    P.append(("reject", "def prog(a: Qint[2]):\n    return a\n"))
     return P
 
 
 # ---------------------------------------------------------------- U-repo
+def u_repo_frozen():
+    """The harvested test programs as frozen into /verif at build time (stable item ids even if
+    the repository's tests are edited later)."""
+    import json
+
+    path = os.path.join(os.path.dirname(os.path.abspath(__file__)), "data", "repo_programs.json")
+    return [("repo:" + o["origin"].split(":", 1)[1] if o["origin"].startswith("repo:") else o["origin"], o["src"]) for o in json.load(open(path))]
+
+
 def u_repo():
     """Every string constant in /repo/test/**/*.py that parses as one function definition with a
     return annotation (regenerated from the current tree)."""
@@ -395,3 +404,15 @@ def size_ok(src, max_bits=24, max_nodes=80):
             except Exception:
                 bits += 4
     return bits <= max_bits
+
+
+def u_unit_pairs(pairs):
+    """binary operators on explicit (left width, right width) pairs, natural return type"""
+    out = []
+    for wl, wr in pairs:
+        for op in ARITH:
+            nat = max(wl, wr) if op != "*" else _bucket(2 * max(wl, wr))
+            out.append(("unit-arith", _f(["a: Qint[%d]" % wl, "b: Qint[%d]" % wr], "Qint[%d]" % nat, "return a %s b" % op)))
+        for op in CMP:
+            out.append(("unit-cmp", _f(["a: Qint[%d]" % wl, "b: Qint[%d]" % wr], "bool", "return a %s b" % op)))
+    return out
